@@ -695,6 +695,18 @@ def divide (E : Env) (w : World) (s : Store) (dv : Val) : Except Err (World × S
 
 def unsupportedKeys : List String := ["_add", "_move", "_generate", "_delete"]
 
+/-- one iteration of the branch loop `for key, value in update.items(): if key in self.inner: …` -/
+def updateChild (rec : World → Store → Val → Except Err (World × Store)) (ws : World × Store)
+    (kv : String × Val) : Except Err (World × Store) :=
+  match ws.2 with
+  | .mk a' inner' =>
+    match AL.lookup kv.1 inner' with
+    | some c =>
+      match rec ws.1 c kv.2 with
+      | .ok (w', c') => .ok (w', .mk a' (AL.set kv.1 c' inner'))
+      | .error e => .error e
+    | none => .ok ws
+
 /-- `Store.apply_update(update)`: `_multi_update`, then branch (`_divide`, plain keys) or leaf.
 Fuel = nesting depth of the update. -/
 def applyUpdate (E : Env) : Nat → World → Store → Val → Except Err (World × Store)
@@ -724,15 +736,8 @@ def applyUpdate (E : Env) : Nat → World → Store → Val → Except Err (Worl
             match afterDivide with
             | .error e => .error e
             | .ok ws =>
-              ((KV.erase "_divide" kvs).filter fun kv => !unsupportedKeys.contains kv.1).foldlM (fun (ws : World × Store) (kv : String × Val) =>
-                match ws.2 with
-                | .mk a' inner' =>
-                  match AL.lookup kv.1 inner' with
-                  | some c =>
-                    match applyUpdate E fuel ws.1 c kv.2 with
-                    | .ok (w', c') => Except.ok (w', Store.mk a' (AL.set kv.1 c' inner'))
-                    | .error e => .error e
-                  | none => .ok ws) ws
+              ((KV.erase "_divide" kvs).filter fun kv => !unsupportedKeys.contains kv.1).foldlM
+                (updateChild (applyUpdate E fuel)) ws
         | .list [] => .ok (w, .mk a inner)       -- `dict([])`
         | .str s => if s.isEmpty then .ok (w, .mk a inner) else .error .valueError   -- `dict('ab')`
         | _ => .error .typeError
